@@ -371,3 +371,44 @@ Example shared_identity_is_captured :
   find_this [[("A", OPred (recp is_int (PThis 0))); ("P", OPred (recp is_str (PThis 0)))]] (PThis 0)
   = Some (recp is_int (PThis 0)).
 Proof. reflexivity. Qed.
+
+(* ---------- since the D27 repair: the library's own frames are skipped, whatever they hold ----------
+   find_this_predicate / find_root_predicate / find_predicate_by_ref now begin with
+       if is_library_frame(frame): (go on with frame.f_back)          [frame.f_globals['__name__'] starts with "predicate."]
+   so the stack the three finders search is the real frame chain WITHOUT the library's frames.  A real chain is a list of
+   (runs library code?, f_locals); the finders of the code are the finders above applied to `user_frames`.
+   (Before the repair a frame of TupleOfPredicate / DictOfPredicate, whose loop variables p, key_p, value_p are
+   predicate-valued, captured the reference: the frames listed under lib_frame above were only the harmless ones.) *)
+Definition fstack := list (bool * frame).
+Definition user_frames (fs : fstack) : stack := map snd (filter (fun bf => negb (fst bf)) fs).
+Definition find_this_f (fs : fstack) (node : pred) : option pred := find_this (user_frames fs) node.
+Definition find_root_f (fs : fstack) (node : pred) : option pred := find_root (user_frames fs) node.
+Definition find_by_ref_f (fs : fstack) (ref : string) : option obj := find_by_ref (user_frames fs) ref.
+
+Theorem library_frames_are_skipped (fr : frame) (fs : fstack) (node : pred) (ref : string) :
+  find_this_f ((true, fr) :: fs) node = find_this_f fs node /\
+  find_root_f ((true, fr) :: fs) node = find_root_f fs node /\
+  find_by_ref_f ((true, fr) :: fs) ref = find_by_ref_f fs ref.
+Proof. repeat split. Qed.
+
+Theorem user_frames_are_searched (fr : frame) (fs : fstack) (node : pred) (ref : string) :
+  find_this_f ((false, fr) :: fs) node = find_this (fr :: user_frames fs) node /\
+  find_root_f ((false, fr) :: fs) node = find_root (fr :: user_frames fs) node /\
+  find_by_ref_f ((false, fr) :: fs) ref = find_by_ref (fr :: user_frames fs) ref.
+Proof. repeat split. Qed.
+
+(* is_tuple_of_p(is_str_p, is_list_of_p(P)) called with P = is_int | is_list_of(this): the generator expression of
+   TupleOfPredicate.__call__ holds p = is_list_of_p(P), which contains the reference.  Read as a user frame (the code
+   before the repair) it captures this_p, root_p and lazy_p("p"); flagged as the library frame it is, it does not. *)
+Definition tuple_of_genexpr (P : pred) : frame := [(".0", OData true); ("p", OPred (PAnd is_list (PAll P))); ("v", OData true)].
+Example tuple_of_loop_variable_no_longer_captures :
+  let P := recp is_int (PThis 1) in
+  let user := [("P", OPred P)] in
+  find_this (tuple_of_genexpr P :: [user]) (PThis 1) = Some (PAnd is_list (PAll P)) /\
+  find_this_f [(true, tuple_of_genexpr P); (false, user)] (PThis 1) = Some P /\
+  find_root_f [(true, tuple_of_genexpr P); (false, user)] (PThis 1) = Some P /\
+  find_by_ref ([(".0", OData true); ("p", OPred (PAnd is_list (PAll (recp is_int (PLazy "p"))))); ("v", OData true)]
+               :: [[("p", OPred (recp is_int (PLazy "p")))]]) "p" = Some (OPred (PAnd is_list (PAll (recp is_int (PLazy "p"))))) /\
+  find_by_ref_f [(true, [(".0", OData true); ("p", OPred (PAnd is_list (PAll (recp is_int (PLazy "p"))))); ("v", OData true)]);
+                 (false, [("p", OPred (recp is_int (PLazy "p")))])] "p" = Some (OPred (recp is_int (PLazy "p"))).
+Proof. vm_compute. repeat split. Qed.
